@@ -26,6 +26,7 @@ from unittest import mock
 
 from . import common
 from . import c06_f32
+from . import c06_edge
 from .common import rlit, lst
 
 HEADER = """From Coq Require Import Reals List Lra.
@@ -602,8 +603,16 @@ def generate(ctx):
     c06_f32.run_cases(f32, jit=True, log=common.log)
     cases += f32 + c06_f32.utils_cases(rnd, ctx.quick)
     common.log(f"[C06] float32 large-block stratum done at {time.time() - ctx.t0:.0f}s")
+    # zero-density stratum: transitions from / to points with log pi = -inf (ratio in the extended reals)
+    edge = c06_edge.gen_cases(rnd, ctx.quick)
+    c06_edge.run_cases(edge, jit=True, log=common.log)
+    cases += edge
+    common.log(f"[C06] zero-density stratum done at {time.time() - ctx.t0:.0f}s")
     usable = 0
     for c in cases:
+        if c["kernel"] == "edge":
+            ctx.hist(f"zero-density.{c['k']}.{c['fam']}{c['n']}.{c['iface']}." + ("from pi(x)=0 to pi(x')>0" if c["dir"] == "in" else "from pi(x)>0 to pi(x')=0"))
+            continue
         if c["kernel"] == "iwls32":
             import numpy as np
             ctx.hist(f"float32.iwls.{c['fam']}{c['n']}.info_scale={c['kappa']:g}.step={c['s']}")
@@ -627,7 +636,7 @@ def generate(ctx):
     distinct = {(group_of(c), tuple(c["x"]), tuple(c["z"]), c["s"], c["seed"] if c["mode"] == "free" else 0)
                 for c in cases if c["kernel"] in ("iwls", "rw", "mh") and c["moved"]}
     ctx.count(len(cases), len(distinct) + sum(1 for c in cases if c["kernel"] in ("utils", "utils32"))
-              + sum(1 for c in cases if c["kernel"] == "iwls32" and c["moved"]))
+              + sum(1 for c in cases if c["kernel"] == "iwls32" and c["moved"]) + sum(1 for c in cases if c["kernel"] == "edge"))
     ctx.cov["rule"] = ("one case = one real kernel.transition (family, block shape, interface, chol variant, epoch type, "
                        "current point, normal draw or PRNG key, step size) whose proposal was accepted, or one iwls_utils call; "
                        "distinct = distinct such tuples; rejected free-stream transitions are run but not counted")
@@ -651,6 +660,8 @@ def generate(ctx):
         "(the default), 0.1, 1): error code 0, accepted, log acceptance ratio and proposal agree with the n-d model evaluated in float64 "
         "by the oracle (tolerance 2e-5 relative to the magnitudes involved); these large blocks are not evaluated in Coq, only "
         "mvn_log_prob itself is (float32 value vs Gauss.mvn_log_prob at points where prod(diag) leaves the float32 range)",
+        "zero-density stratum: the finite log-densities / corrections handed to the special-value model are the harness's closed forms; "
+        "that -inf - finite, finite - -inf behave in XLA as in Base/Xnum.v is what the shard checks on the sampled cases",
         "DA step-size adaptation in adaptation epochs leaves the reported acceptance probability unchanged: tested on the adaptation-epoch cases",
     ]
     ctx.extra_tb = ["Interval tactic (verified interval arithmetic over Flocq/Bignums) for the generated R-lemmas",
@@ -872,8 +883,8 @@ def lemmas_of(i, c):
     """list of (name, statement, proof, cost)"""
     out = []
     itv = f"interval with (i_prec {PREC})"
-    if c["kernel"] == "iwls32":
-        return out
+    if c["kernel"] in ("iwls32", "edge"):
+        return out              # (edge cases go into their own discrete shard, see emit)
     if c["kernel"] == "utils32":
         v = c["val"][0]
         if not math.isfinite(v):
@@ -948,6 +959,10 @@ def emit(ctx, cases):
                 nl += 1
         idxs = sorted({i for (_, i, _) in its})
         shards.append((ctx.new_shard(txt), idxs))
+    ext = [(i, c) for i, c in enumerate(cases) if c["kernel"] == "edge" and c.get("forced_ok")]
+    if ext:
+        shards.append((ctx.new_shard(c06_edge.ext_shard(ext), "cases_ext"), [i for i, _ in ext]))
+        ctx.hist("zero-density cases evaluated on C05's special-value model of mh_step (vm_compute shard)", len(ext))
     ctx.hist("R-lemmas emitted", nl)
     ctx.hist("shards", len(shards))
     return shards
@@ -964,6 +979,8 @@ def diagnose(ctx, path, idxs, cases):
         if _DIAG.setdefault("named", 0) < 2:
             _DIAG["named"] += 1
             names = [nm for i in bad[:4] for (nm, _, _, _) in lemmas_of(i, cases[i]) if nm.endswith(("_alpha", "_proposal", "_utils"))]
+            if os.path.basename(path).startswith("cases_ext"):
+                names = ["ext_ok (C05's special-value model of mh_step evaluated on the zero-density cases)"]
             ctx.broken.append(f"R-lemmas of oracle-failing cases in {os.path.basename(path)} (model term vs observed value): " + ", ".join(names[:8]))
         return bad
     # otherwise ask Coq which lemmas fail (bounded: every failing shard would double the run time)
@@ -993,6 +1010,8 @@ def oracle(c):
     from scipy.stats import multivariate_normal as mvn, norm
     if c["kernel"] in ("iwls32", "utils32"):
         return c06_f32.oracle(c)
+    if c["kernel"] == "edge":
+        return c06_edge.oracle(c)
     if c["kernel"] == "utils":
         L = lower_of_tri(c["L"])
         prec = L @ L.T
@@ -1074,6 +1093,7 @@ def search(ctx, disagreeing):
     for rounds in range(2):
         cases = gen_cases(rnd, True, scale=2.0, only_kernels=kernels)
         run_cases(cases, jit=True)
+        cases += c06_edge.run_cases(c06_edge.gen_cases(rnd, True), jit=True)
         if kernels is None or "iwls" in kernels:
             cases += c06_f32.run_cases(c06_f32.gen_cases(rnd, True), jit=True) + c06_f32.utils_cases(rnd, True)
         for c in cases:
@@ -1096,6 +1116,11 @@ def replay(rp):
         if c.get("kernel") in ("utils", "utils32"):
             r = oracle(c)
             print(f"{c['kernel']} {c.get('fn')} value recorded by the failing run: {c.get('val')}")
+        elif c.get("kernel") == "edge":
+            c2 = {k: v for k, v in c.items() if k not in ("p", "moved", "code", "newx", "lp_cur_impl", "forced_ok", "why")}
+            c06_edge.run_cases([c2], jit=False)
+            r = oracle(c2)
+            print(c06_edge.describe(c2) + f"re-run: acceptance_prob={c2['p']!r} error code={c2['code']} moved={c2['moved']} new state={c2['newx']}")
         elif c.get("kernel") == "iwls32":
             c2 = {k: v for k, v in c.items() if k not in ("p", "moved", "code", "xp", "forced_ok", "why")}
             c06_f32.run_cases([c2], jit=False)
